@@ -10,9 +10,12 @@ Section GenEq.
   Open Scope of_scope.
   Add Field Kf_g : (Fth K).
 
-  Lemma scaler_update_gen_eq (s : wstate K) (b : list K) :
+  (* the batch is a tensor of any rank >= 1, given as the list of its rows along the leading dimension ([B] = B rows of
+     one entry, [B,S] = B rows of S entries): the code itself must flatten it (`batch.reshape(-1)`) before it takes
+     `len(batch)` -- if it does not, the translated count is the number of ROWS and this lemma no longer holds *)
+  Lemma scaler_update_gen_eq (s : wstate K) (b : list (list K)) :
     gen_scaler_update K (w_count s) (w_mean s) (w_M2 s) b =
-      (w_count (w_update s b), w_mean (w_update s b), w_M2 (w_update s b)).
+      (w_count (w_update s (concat b)), w_mean (w_update s (concat b)), w_M2 (w_update s (concat b))).
   Proof. reflexivity. Qed.
 
   Lemma ema_eval_gen_eq (beta : K) (v : option K) (r : list K) :
@@ -28,20 +31,21 @@ Section GenEq.
   Proof. reflexivity. Qed.
 
   (* the running statistics computed by the translated code over any history of batches *)
-  Definition gen_scaler_run (bs : list (list K)) : nat * K * K :=
+  Definition gen_scaler_run (bs : list (list (list K))) : nat * K * K :=
     fold_left (fun st b => match st with (c, m, M2) => gen_scaler_update K c m M2 b end) bs (0%nat, f0, f0).
 
   Lemma gen_scaler_run_eq bs :
-    gen_scaler_run bs = (w_count (w_run bs), w_mean (w_run bs), w_M2 (w_run bs)).
+    gen_scaler_run bs = (w_count (w_run (map (@concat K) bs)), w_mean (w_run (map (@concat K) bs)), w_M2 (w_run (map (@concat K) bs))).
   Proof.
     unfold gen_scaler_run, w_run.
     change (0%nat, f0, f0) with (w_count (@w_init K), w_mean (@w_init K), w_M2 (@w_init K)).
     generalize (@w_init K). induction bs as [|b bs IH]; intros s; [reflexivity|].
-    cbn [fold_left]. rewrite scaler_update_gen_eq. apply IH.
+    cbn [fold_left map]. rewrite scaler_update_gen_eq. apply IH.
   Qed.
 
-  Theorem gen_welford_exact (bs : list (list K)) :
-    let xs := concat bs in
+  (* every value of every batch (of any shape) counts once *)
+  Theorem gen_welford_exact (bs : list (list (list K))) :
+    let xs := concat (map (@concat K) bs) in
     match gen_scaler_run bs with
     | (c, m, M2) => c = length xs /\ of_nat (length xs) * m = fsum xs /\ M2 = ssd xs m
     end.
@@ -57,8 +61,8 @@ Proof.
 Qed.
 Lemma fsum_fold_right (l : list R) : @fsum RF l = fold_right Rplus 0%R l.
 Proof. induction l as [|x l IH]; simpl; [reflexivity | rewrite IH; reflexivity]. Qed.
-Lemma welford_exact_R (bs : list (list R)) :
-  let xs := concat bs in
+Lemma welford_exact_R (bs : list (list (list R))) :
+  let xs := concat (map (@concat R) bs) in
   match gen_scaler_run RF bs with
   | (c, m, M2) => c = length xs /\ (INR (length xs) * m = fold_right Rplus 0 xs)%R
   end.
